@@ -13,7 +13,7 @@ func init() {
 	register(&Spec{
 		ID:          "C20",
 		Loads:       []LoadSpec{{Patterns: []string{"./discovery", "./netann", "./graph", "./graph/db", "./lnwire"}}},
-		Explanation: "Decides that a remote channel announcement reaches the graph only after ValidateChannelAnn succeeded (unconditionally for remote messages) and, unless channel validation is assumed or the id is an alias, after the funding output was located, matched against the 2-of-2 of the announced bitcoin keys and found unspent, with capacity and outpoint taken from that lookup; that the version-1 validator verifies the four signatures, each against its own key, over the double hash of DataToSign, which covers every non-signature field; that a channel update is applied only after the staleness test, field validation and a signature check under the node key selected by the direction bit, and the store applies it only when strictly newer than the timestamp stored for that same direction; that a node announcement is stored only after signature validation, for a node known to the graph, when strictly newer; that messages are handed on for relay only on the accepting paths; that a zombie resurrected by an update passed the full update validation (fields and signature), and one revived by FilterKnownChanIDs joins the ids to query; that only a spent funding output (btcwallet.ErrOutputSpent) is reported as ErrChannelSpent and closes a channel id; that a version-1 announcement naming one node on both sides is refused; and that every call lifting a zombie index entry lies below a verified channel update for that channel (FilterKnownChanIDs, which lifts entries on the timestamps a peer claims, is reported).",
+		Explanation: "Decides that a remote channel announcement reaches the graph only after ValidateChannelAnn succeeded (unconditionally for remote messages) and, unless channel validation is assumed or the id is an alias, after the funding output was located, matched against the 2-of-2 of the announced bitcoin keys and found unspent, with capacity and outpoint taken from that lookup; that the version-1 validator verifies the four signatures, each against its own key, over the double hash of DataToSign, which covers every non-signature field; that a channel update is applied only after the staleness test, field validation and a signature check under the node key selected by the direction bit, and the store applies it only when strictly newer than the timestamp stored for that same direction; that a node announcement is stored only after signature validation, for a node known to the graph, when strictly newer; that messages are handed on for relay only on the accepting paths; that a zombie resurrected by an update passed the full update validation (fields and signature), and one revived by FilterKnownChanIDs joins the ids to query; that only a spent funding output (btcwallet.ErrOutputSpent) is reported as ErrChannelSpent and closes a channel id; that a version-1 announcement naming one node on both sides is refused; and that every call lifting a zombie index entry lies below a verified channel update for that channel (FilterKnownChanIDs, which lifts entries on the timestamps a peer claims, is reported); that a funding output which exists but pays to other keys (chanvalidate.ErrWrongPkScript) is rejected as ErrInvalidFundingOutput without marking the channel id a zombie; that the kv store uses an edge returned by delChannelEdgeUnsafe only when the delete found it; that handleAnnSig and processRejectedEdge store and relay an assembled channel proof only after an unconditional, successful ValidateChannelAnn of the announcement assembled from the stored channel and that proof; and that the max_htlc bounds of a channel update are compared in msat on both sides.",
 		NotDecided: []string{
 			"that every corruption is detected (cryptographic strength, parser totality: C10)", "gossip version 2 announcements beyond the dispatch to their validator", "the chain backend's answers (GetUtxo / block fetch)", "rate limiting, ban scores and the reject cache (they only drop more)",
 		},
